@@ -12,6 +12,10 @@ from pexpect.exceptions import EOF, TIMEOUT
 from .. import pat as P
 from ..recorder import Recorder, install
 from ..world import PtyWorld, FdWorld, SockWorld, PopenWorld, WouldBlock
+from ..budget import Hung, wall_budget, ReadBound, pmap, CASE_BUDGET
+
+MAX_READS = 5000       # read_nonblocking calls per call of the expect family (the longest legitimate one: LONG characters one by one)
+WALL_BUDGET = 20       # seconds of wall-clock time per call (they take milliseconds)
 
 MAP_B = P.Mapping({'a': 'a', 'b': 'b', 'x': 'x'})
 MAP_U = P.Mapping({'a': 'é', 'b': 'b', 'x': 'x'}, unicode_mode=True)
@@ -64,6 +68,15 @@ def attach_read_log(child):
 
 
 def run_case(args):
+    try:
+        with wall_budget(CASE_BUDGET):
+            return run_case_(args)
+    except Hung:
+        return {'id': args[1], 'meta': {'transport': args[2], 'stream': args[7]},
+                'error': 'the case did not finish within %d s (world construction / peer synchronisation)' % CASE_BUDGET}
+
+
+def run_case_(args):
     workdir, tid, tr, unicode_mode, ending, entry, pats, stream = args[:8]
     opts = args[8] if len(args) > 8 else {}
     mapping = MAP_U if unicode_mode else MAP_B
@@ -98,14 +111,18 @@ def run_case(args):
         exact = entry == 'expect_exact'
         rec.annot = {'pats': pats}
         conc = [mapping.concrete(p, exact) for p in pats]
-        for rep in range(opts.get('reps', 2) if ending == 'eof' else 1):
+        kw = {'timeout': opts['tmo']} if 'tmo' in opts else {}        # a polling call: timeout=0
+        bound = ReadBound(child, MAX_READS)
+        for rep in range(opts.get('reps', 2) if ending == 'eof' else opts.get('reps', 1)):
+            bound.reset()
             try:
+              with wall_budget(WALL_BUDGET):
                 if entry == 'expect':
-                    child.expect(conc)
+                    child.expect(conc, **kw)
                 elif entry == 'expect_exact':
-                    child.expect_exact(conc)
+                    child.expect_exact(conc, **kw)
                 elif entry == 'expect_list':
-                    child.expect_list(child.compile_pattern_list(conc))
+                    child.expect_list(child.compile_pattern_list(conc), **kw)
                 elif entry == 'read':
                     rec.annot = {'pats': [P.EOFM]}
                     v = child.read()
@@ -116,6 +133,10 @@ def run_case(args):
                     rec.emit(e='flret', fn='readline', val=rec.ab(v))
             except (EOF, TIMEOUT):
                 pass
+            except Hung as e:
+                # the call did not come back: stopped by the harness (judged outside the trace specification)
+                out['hung'] = {'call': rep, 'why': str(e), 'timeout': kw.get('timeout', 'default (2.0)')}
+                break
             except WouldBlock:
                 rec.emit(e='ret', kind='error', idx=-1, raised='WouldBlock', before=[], after=[], afterk='None', buffer=[], mi=-1, mk='None', mok=True, tok=True)
                 break
@@ -183,13 +204,38 @@ def corpus(ctx, pool):
                                 opts['use_poll'] = bool(tid % 2)
                             jobs.append((ctx.work, tid, tr, uni, 'eof', entry, pl or [], stream, opts))
                             tid += 1
-    outs = pool.map(run_case, jobs, chunksize=4)
-    corpus.counts = (nbase, len(jobs) - nbase)
+    nrem = len(jobs) - nbase
+    # polling calls (timeout=0) while the peer is alive: silent, or with text already readable / arriving later - the
+    # outcome is TIMEOUT at once (index if listed, else the exception), `before` is what was readable; twice in a row
+    plists = [[P.lit('x')], [P.lit('x'), P.TMOM], [P.TMOM, P.lit('x')], [P.EOFM, P.lit('x'), P.TMOM]]
+    for tr in TRANSPORTS:
+        for uni in (False, True):
+            for entry in ('expect', 'expect_exact', 'expect_list'):
+                for pl in plists:
+                    for stream in ('', 'ab', 'aab'):
+                        for early in (False, True):
+                            if ctx.quick() and rng.random() > 0.15:
+                                continue
+                            opts = {'tmo': 0, 'reps': 2, 'early': early}
+                            if tr in HAS_POLL:
+                                opts['use_poll'] = bool(tid % 2)
+                            jobs.append((ctx.work, tid, tr, uni, 'timeout', entry, pl, stream, opts))
+                            tid += 1
+    outs = pmap(pool, run_case, jobs, chunksize=4, timeout=1500)
+    corpus.counts = (nbase, nrem, len(jobs) - nbase - nrem)
     return outs
 
 
 # ---------------------------------------------------------------------------------------------
 def replay_expect(args):
+    try:
+        with wall_budget(CASE_BUDGET):
+            return replay_expect_(args)
+    except Hung:
+        return {'calls': [], 'error': 'the case did not finish within %d s (world construction / peer synchronisation)' % CASE_BUDGET}
+
+
+def replay_expect_(args):
     """one PtyRead / FdRead schedule (peer actions placed before the k-th reader system call) under expect():
     expect_exact([never-matching, EOF, TIMEOUT]) for every CallStart of the schedule; then the peer goes away (if it
     has not yet) and the call is made three more times"""
@@ -205,6 +251,7 @@ def replay_expect(args):
             w = FdWorld(workdir, **TR.fd_variant(k))
         w.schedule = [tuple(x) for x in schedule]
         child = w.child
+        bound = ReadBound(child, MAX_READS)
 
         def one_call(size, tmo, tail=False):
             child.maxread = size
@@ -212,11 +259,16 @@ def replay_expect(args):
             rec = {'tmo': tmo, 'written_before': w.written.decode('latin-1'), 'peer_open_before': w.peer_open}
             if tail:
                 rec['tail'] = True
+            bound.reset()
             try:
-                i = child.expect_exact([b'\xff\xfe', pexpect.EOF, pexpect.TIMEOUT], timeout=float(tmo))
+                with wall_budget(WALL_BUDGET):
+                    i = child.expect_exact([b'\xff\xfe', pexpect.EOF, pexpect.TIMEOUT], timeout=float(tmo))
                 rec['kind'] = ('match', 'EOF', 'TIMEOUT')[i]
             except WouldBlock:
                 rec['kind'] = 'BLOCK'
+            except Hung as e:
+                rec['kind'] = 'HUNG'
+                rec['why'] = str(e)
             except Exception as e:
                 rec['kind'] = 'ERR:' + type(e).__name__
             finally:
@@ -235,7 +287,7 @@ def replay_expect(args):
             size, tmo = w.schedule[w.pos][1]
             w.pos += 1
             rec = one_call(size, tmo)
-            if rec['kind'] in ('BLOCK',) or rec['kind'].startswith('ERR'):
+            if rec['kind'] in ('BLOCK', 'HUNG') or rec['kind'].startswith('ERR'):
                 stopped = True
                 break
         if not stopped:
@@ -243,7 +295,7 @@ def replay_expect(args):
             w.quiet = True
             for _ in range(3):
                 rec = one_call(2, 0, tail=True)
-                if rec['kind'] in ('BLOCK',) or rec['kind'].startswith('ERR'):
+                if rec['kind'] in ('BLOCK', 'HUNG') or rec['kind'].startswith('ERR'):
                     break
         out['written'] = w.written.decode('latin-1')
     except Exception:
@@ -283,6 +335,8 @@ def judge_expect(out):
                 bad.append(('C04:timeout-before-does-not-hold-all-pending-text', i))
         elif c['kind'] == 'match':
             bad.append(('C04:match-reported-for-a-pattern-that-cannot-occur', i))
+        elif c['kind'] == 'HUNG':
+            bad.append(('C04:timeout-0-call-did-not-return' if c['tmo'] == 0 else 'C04:call-did-not-return', i))
         elif c['kind'].startswith('ERR'):
             bad.append(('C04:other-exception-instead-of-eof-or-timeout', i))
     return bad
@@ -315,7 +369,7 @@ def interleaved(ctx, pool):
                     vs = (vs[o:] + vs[:o])[::len(vs) // 4][:4]
                 for v in vs:
                     jobs.append((ctx.work, s_, v, 'fd'))
-        outs = pool.map(replay_expect, jobs, chunksize=8)
+        outs = pmap(pool, replay_expect, jobs, chunksize=8, timeout=1500 if ctx.quick() else 7200)
         for job, out in zip(jobs, outs):
             if out['error']:
                 raise tlc.TLCError('expect-level replay crashed: %s\n%s' % (job[1], out['error']))
@@ -351,6 +405,11 @@ def replay_case(ctx, case):
     if 'error' in r:
         print(r['error'])
         return 2
+    if 'hung' in r:
+        print('the call did not come back: %s' % r['hung'])
+        for e in r['ev']:
+            print('   ', json.dumps(e)[:300])
+        return 1
     v, st = tracecheck.validate([r], 'ExpectTrace', ctx.work, constants=TRACE_CONSTS, procs=1, tag='replay')
     names = st['all'].get('replay', [v['replay'][0]])
     print('replay verdict: %s at event %d (all failing clauses: %s)' % (v['replay'][0], v['replay'][1], names))
